@@ -67,6 +67,10 @@ Definition loop_until {A St} (step : A -> St -> St * bool) : list A -> St -> St 
     | x :: r => match step x st with (s2, true) => s2 | (s2, false) => go r s2 end
     end.
 
+Lemma loop_until_cons {A St} (step : A -> St -> St * bool) x r st :
+  loop_until step (x :: r) st = match step x st with (s2, true) => s2 | (s2, false) => loop_until step r s2 end.
+Proof. reflexivity. Qed.
+
 Definition sacc := (list (list str) * list (list str))%type.      (* recorded entries, sub-packages; newest first *)
 
 Fixpoint swalk (bfn : list str) (rp : bool) (par : list str) (nm : str) (n : node) (a : sacc) {struct n} : sacc * bool :=
@@ -268,8 +272,9 @@ Lemma sloop_spec bfn rp dir ks :
   forall a, sloop_post bfn rp dir ks a.
 Proof.
   induction ks as [|[nm k] rest IH]; intros Hnd Hk a.
-  - exists [], []. repeat split; try (intros; contradiction); try discriminate.
-    + intros [? Hin]. contradiction.
+  - exists [], []. split; [destruct a; reflexivity|]. split; [intros f []|]. split; [intros d []|].
+    split; [intros _ H; discriminate|]. intros _. split; [intros d []|].
+    intros f. split; [intros [[] _]|intros []].
   - cbn [map fst] in Hnd. apply nodupb_cons in Hnd as [Hnotin Hnd].
     assert (Hrest : forall nm0 k0, In (nm0, k0) rest ->
               node_hyp rp (is_nil dir) nm0 k0 /\ forall a, swalk_post bfn rp dir nm0 k0 a)
@@ -277,30 +282,27 @@ Proof.
     specialize (IH Hnd Hrest).
     destruct (Hk nm k (or_introl eq_refl)) as [[Hwf Hplz] Hpost].
     destruct (Hpost a) as (Fn1 & Sn1 & skip1 & E1 & Hpre1 & Hcase).
-    unfold sloop in *. cbn [loop_until fst snd]. rewrite E1.
+    assert (Estep : sloop bfn rp dir ((nm, k) :: rest) a
+                    = if skip1 then (Fn1 ++ fst a, Sn1 ++ snd a) else sloop bfn rp dir rest (Fn1 ++ fst a, Sn1 ++ snd a)).
+    { unfold sloop. rewrite loop_until_cons. cbn [fst snd]. rewrite E1. destruct skip1; reflexivity. }
+    unfold sloop_post. rewrite Estep.
     assert (Hb : has_build bfn ((nm, k) :: rest) = in_bfn bfn nm || has_build bfn rest) by reflexivity.
     destruct (in_bfn bfn nm && negb (is_nil dir)) eqn:Ebuild.
     + (* a BUILD file (or an entry named like one) in a directory that is not the package's own *)
       destruct Hcase as [-> ->]. apply andb_prop in Ebuild as [Hin Hdir].
       assert (Hdne : dir <> []) by (destruct dir; [discriminate|discriminate]).
       destruct skip1.
-      * exists [], [dir]. repeat split; try (intros; contradiction).
-        -- intros d [<-|[]]. now left.
-        -- intros _ _. now left.
-        -- intros [->|Hnb]; [congruence|]. rewrite Hb, Hin in Hnb. discriminate.
-        -- intros [->|Hnb]; [congruence|]. rewrite Hb, Hin in Hnb. discriminate.
-        -- intros [->|Hnb]; [congruence|]. rewrite Hb, Hin in Hnb. discriminate.
-        -- intros [->|Hnb]; [congruence|]. rewrite Hb, Hin in Hnb. discriminate.
+      * exists [], [dir]. split; [reflexivity|]. split; [intros f []|]. split; [intros d [<-|[]]; now left|].
+        split; [intros _ _; now left|]. intros [->|Hnb]; [congruence|]. rewrite Hb, Hin in Hnb. discriminate.
       * destruct (IH (fst a, dir :: snd a)) as (Fnr & Snr & Er & HpreF & HpreS & Hhb & _).
-        cbn [fst snd app] in Er. cbn [app]. rewrite Er.
-        exists Fnr, (Snr ++ [dir]). rewrite <- app_assoc. cbn [app]. split; [reflexivity|]. repeat split.
+        cbn [fst snd] in Er.
+        exists Fnr, (Snr ++ [dir]). rewrite <- app_assoc. cbn [app]. split; [exact Er|].
+        split; [|split; [|split]].
         -- intros f Hf. destruct (HpreF f Hf) as (nm0 & Hin0 & Hp). exists nm0. split; [now right|exact Hp].
         -- intros d Hd. apply in_app_or in Hd as [Hd|[<-|[]]]; [|now left].
            destruct (HpreS d Hd) as [->|(nm0 & Hin0 & Hp)]; [now left|right]. exists nm0. split; [now right|exact Hp].
         -- intros _ _. apply in_or_app. right. now left.
-        -- destruct H as [->|Hnb]; [congruence|]. rewrite Hb, Hin in Hnb. discriminate.
-        -- destruct H as [->|Hnb]; [congruence|]. rewrite Hb, Hin in Hnb. discriminate.
-        -- destruct H as [->|Hnb]; [congruence|]. rewrite Hb, Hin in Hnb. discriminate.
+        -- intros [->|Hnb]; [congruence|]. rewrite Hb, Hin in Hnb. discriminate.
     + destruct Hcase as (-> & HpreS1 & Hcase).
       destruct (IH (Fn1 ++ fst a, Sn1 ++ snd a)) as (Fnr & Snr & Er & HpreF & HpreS & Hhb & Hflat).
       cbn [fst snd] in Er. rewrite Er. exists (Fnr ++ Fn1), (Snr ++ Sn1). rewrite <- !app_assoc.
@@ -323,8 +325,15 @@ Proof.
         -- intros d Hd. apply in_app_or in Hd as [Hd|Hd].
            ++ destruct (HlocS d Hd) as (nm0 & Hin0 & Hp). exists nm0. split; [now right|exact Hp].
            ++ exists nm. split; [now left|now apply HpreS1].
-        -- intros f. unfold ents_kids. cbn [flat_map fst snd]. rewrite map_app, in_app_iff.
-           fold (ents_kids bfn (is_nil dir && rp) dir rest). rewrite <- Hiff.
+        -- intros f.
+           assert (Hents : In f (map fst (ents_kids bfn (is_nil dir && rp) dir ((nm, k) :: rest)))
+                           <-> In f (map fst (if is_nil dir && rp && str_eqb nm plz_out then []
+                                               else if keep bfn k
+                                                    then (dir ++ [nm], is_dir k) :: ents bfn false (dir ++ [nm]) k
+                                                    else []))
+                               \/ In f (map fst (ents_kids bfn (is_nil dir && rp) dir rest))).
+           { unfold ents_kids. cbn [flat_map fst snd]. rewrite map_app, in_app_iff. reflexivity. }
+           rewrite Hents, <- Hiff. clear Hents.
            (* siblings do not interfere *)
            assert (Hsib1 : forall f, In f Fn1 -> forall d, In d Snr -> ~ pre d f).
            { intros f0 Hf0 d Hd Hp. destruct (HlocS d Hd) as (nm0 & Hin0 & Hp0).
@@ -334,11 +343,15 @@ Proof.
              pose proof (pre_sibling dir nm nm0 d f0 (HpreS1 d Hd) Hp Hp0) as <-. contradiction. }
            destruct (str_eqb nm plz_out && rp) eqn:Eplz.
            ++ destruct Hcase as (-> & -> & Htop). apply andb_prop in Eplz as [Enm ->].
-              rewrite Htop, Enm. cbn [andb map]. rewrite !app_nil_r. tauto.
+              rewrite Htop, Enm. cbn [andb map In]. rewrite !app_nil_r. tauto.
            ++ assert (is_nil dir && rp && str_eqb nm plz_out = false) as ->.
               { rewrite <- andb_assoc, (andb_comm rp), Eplz. apply andb_false_r. }
               destruct (keep bfn k) eqn:Ekeep.
-              ** cbn [map fst]. specialize (Hcase f). split.
+              ** cbn [map fst]. specialize (Hcase f).
+                 assert (Hc : In f Fn1 /\ (forall d, In d Sn1 -> ~ pre d f)
+                              <-> In f ((dir ++ [nm]) :: map fst (ents bfn false (dir ++ [nm]) k))).
+                 { rewrite Hcase. cbn [In]. split; (intros [H|H]; [left; now symmetry|now right]). }
+                 clear Hcase. rename Hc into Hcase. split.
                  --- intros [Hin Hno]. apply in_app_or in Hin as [Hin|Hin].
                      +++ right. split; [exact Hin|]. intros d Hd. apply Hno. apply in_or_app. now left.
                      +++ left. apply Hcase. split; [exact Hin|]. intros d Hd. apply Hno. apply in_or_app. now right.
@@ -353,4 +366,215 @@ Proof.
                      +++ exfalso. apply (Hno (dir ++ [nm])); [apply in_or_app; now right|now apply Hpre1].
                  --- intros [[]|[Hin Hno]]. split; [apply in_or_app; now left|].
                      intros d Hd. apply in_app_or in Hd as [Hd|Hd]; [now apply Hno|now apply Hsib2].
+Qed.
+
+Lemma snoc_not_nil {A} (l : list A) x : l ++ [x] <> [].
+Proof. destruct l; discriminate. Qed.
+
+Lemma swalk_spec bfn rp n : forall par nm, node_hyp rp (is_nil par) nm n -> forall a, swalk_post bfn rp par nm n a.
+Proof.
+  induction n as [| |kids IH] using node_ind2; intros par nm [Hwf Hplz] a; unfold swalk_post.
+  1,2: cbn [swalk]; destruct (in_bfn bfn nm && negb (is_nil par)) eqn:Eb;
+    [ eexists [], [par], _; split; [reflexivity|]; split; [intros f []|]; split; reflexivity
+    | destruct (str_eqb nm plz_out && rp) eqn:Ep;
+      [ exfalso; apply andb_prop in Ep as [Enm ->]; destruct (Hplz eq_refl) as [HP _]; unfold plz_P in HP;
+        rewrite Enm in HP; cbn [is_dir] in HP; rewrite andb_false_r in HP; discriminate
+      | exists [par ++ [nm]], [], false; split; [reflexivity|]; split; [intros f [<-|[]]; apply pre_refl|];
+        split; [reflexivity|]; split; [intros d []|]; cbn [keep ents map In]; intros f; split;
+        [ intros [[<-|[]] _]; now left | intros [->|[]]; split; [now left|intros d []] ] ] ].
+  cbn [swalk]. destruct (in_bfn bfn nm && negb (is_nil par)) eqn:Eb.
+  - eexists [], [par], _. split; [reflexivity|]. split; [intros f []|]. split; reflexivity.
+  - destruct (str_eqb nm plz_out && rp) eqn:Ep.
+    + apply andb_prop in Ep as [Enm ->]. destruct (Hplz eq_refl) as [HP _]. unfold plz_P in HP.
+      rewrite Enm in HP. apply andb_prop in HP as [Htop _].
+      exists [], [], false. cbn [is_dir negb]. split; [destruct a; reflexivity|]. split; [intros f []|].
+      split; [reflexivity|]. split; [intros d []|]. auto.
+    + apply tree_forall_dir in Hwf as [HQ Hkids].
+      assert (Hhyp : forall nm2 k, In (nm2, k) kids -> node_hyp rp (is_nil (par ++ [nm])) nm2 k).
+      { intros nm2 k Hin. split; [apply (Hkids nm2 k Hin)|]. intros ->. destruct (Hplz eq_refl) as [_ HT].
+        apply tree_forall_dir in HT as [_ HT]. rewrite is_nil_false by apply snoc_not_nil. exact (HT nm2 k Hin). }
+      assert (Hloop : forall a, sloop_post bfn rp (par ++ [nm]) kids a).
+      { apply sloop_spec; [exact HQ|]. intros nm2 k Hin. split; [now apply Hhyp|].
+        rewrite Forall_forall in IH. apply (IH (nm2, k) Hin). now apply Hhyp. }
+      destruct (Hloop ((par ++ [nm]) :: fst a, snd a)) as (Fnl & Snl & El & HpF & HpS & Hhb & Hflat).
+      unfold sloop in El. cbn [fst snd] in El.
+      exists (Fnl ++ [par ++ [nm]]), Snl, false. split; [rewrite El, <- app_assoc; reflexivity|].
+      split; [|split; [reflexivity|split]].
+      * intros f Hf. apply in_app_or in Hf as [Hf|[<-|[]]]; [|apply pre_refl].
+        destruct (HpF f Hf) as (nm0 & _ & Hp). exact (pre_trans _ _ _ (pre_snoc _ _) Hp).
+      * intros d Hd. destruct (HpS d Hd) as [->|(nm0 & _ & Hp)]; [apply pre_refl|].
+        exact (pre_trans _ _ _ (pre_snoc _ _) Hp).
+      * cbn [keep]. destruct (has_build bfn kids) eqn:Ehb; cbn [negb].
+        -- apply Hhb; [apply snoc_not_nil|reflexivity].
+        -- destruct (Hflat (or_intror eq_refl)) as [HlocS Hiff]. rewrite ents_dir.
+           rewrite (is_nil_false (par ++ [nm]) (snoc_not_nil _ _)) in Hiff. cbn [andb] in Hiff.
+           intros f. split.
+           ++ intros [Hin Hno]. apply in_app_or in Hin as [Hin|[<-|[]]]; [right|now left].
+              apply Hiff. split; [exact Hin|exact Hno].
+           ++ intros [->|Hin].
+              ** split; [apply in_or_app; right; now left|]. intros d Hd Hp.
+                 destruct (HlocS d Hd) as (nm0 & _ & Hp0). exact (pre_not_longer _ _ _ Hp0 Hp).
+              ** apply Hiff in Hin as [Hin Hno]. split; [apply in_or_app; now left|exact Hno].
+Qed.
+
+(* the walk of the whole package directory: what remains after the sub-package filter *)
+Definition under_any (S : list (list str)) (f : list str) : bool := existsb (fun d => is_prefix_segs d f) S.
+
+Lemma under_any_false S f : under_any S f = false <-> forall d, In d S -> ~ pre d f.
+Proof.
+  unfold under_any. split.
+  - intros H d Hd Hp. apply pre_iff in Hp. assert (existsb (fun d => is_prefix_segs d f) S = true); [|congruence].
+    apply existsb_exists. now exists d.
+  - intros H. destruct (existsb _ S) eqn:E; [|reflexivity]. apply existsb_exists in E as (d & Hd & Hp).
+    apply pre_iff in Hp. exfalso. exact (H d Hd Hp).
+Qed.
+
+Theorem walk_sets bfn rp kids :
+  tree_forall wf_Q wf_P true (Dir kids) = true -> plz_ok rp (Dir kids) = true ->
+  exists Fn Sn, sloop bfn rp [] kids ([[]], []) = (Fn ++ [[]], Sn) /\
+    (forall f, In f Fn -> f <> []) /\
+    (forall d, In d Sn -> d <> []) /\
+    (forall f, (In f Fn /\ under_any Sn f = false) <-> In f (map fst (ents bfn rp [] (Dir kids)))).
+Proof.
+  intros Hwf Hplz.
+  assert (Hwf' : tree_forall wf_Q wf_P false (Dir kids) = true) by exact Hwf.
+  apply tree_forall_dir in Hwf as [HQ Hkids].
+  assert (Hhyp : forall nm k, In (nm, k) kids -> node_hyp rp true nm k).
+  { intros nm k Hin. split; [apply (Hkids nm k Hin)|]. intros ->. unfold plz_ok in Hplz. cbn [negb orb] in Hplz.
+    apply tree_forall_dir in Hplz as [_ HT]. exact (HT nm k Hin). }
+  destruct (sloop_spec bfn rp [] kids HQ) with (a := ([[]: list str], @nil (list str))) as (Fn & Sn & E & HpF & HpS & _ & Hflat).
+  { intros nm k Hin. split; [now apply Hhyp|]. intros a. apply swalk_spec. now apply Hhyp. }
+  destruct (Hflat (or_introl eq_refl)) as [HlocS Hiff].
+  exists Fn, Sn. cbn [fst snd] in E. rewrite app_nil_r in E. split; [exact E|]. split; [|split].
+  - intros f Hf. destruct (HpF f Hf) as (nm & _ & (t & ->)). discriminate.
+  - intros d Hd. destruct (HlocS d Hd) as (nm & _ & (t & ->)). discriminate.
+  - intros f. rewrite under_any_false, ents_dir. cbn [is_nil andb] in Hiff. apply Hiff.
+Qed.
+
+(* ------------------------------------------------------------------------------------------- Part W3 *)
+Definition spec_each bfn (top hidden syms : bool) (rel : list str) :=
+  fix each (ks : list (str * node)) : list (list str) :=
+    match ks with
+    | [] => []
+    | (nm, k) :: rest =>
+        (if negb hidden && name_hidden nm then []
+         else if top && str_eqb nm (s "plz-out") then []
+         else match k with
+              | Dir kk => if has_build bfn kk then [] else spec_files_in bfn false hidden syms (rel ++ [nm]) k
+              | _ => spec_files_in bfn false hidden syms (rel ++ [nm]) k
+              end) ++ each rest
+    end.
+
+Lemma spec_files_dir bfn top hidden syms rel kids :
+  spec_files_in bfn top hidden syms rel (Dir kids) = spec_each bfn top hidden syms rel kids.
+Proof. reflexivity. Qed.
+
+Lemma spec_each_cons bfn top hidden syms rel nm k rest :
+  spec_each bfn top hidden syms rel ((nm, k) :: rest)
+  = (if negb hidden && name_hidden nm then []
+     else if top && str_eqb nm (s "plz-out") then []
+     else match k with
+          | Dir kk => if has_build bfn kk then [] else spec_files_in bfn false hidden syms (rel ++ [nm]) k
+          | _ => spec_files_in bfn false hidden syms (rel ++ [nm]) k
+          end) ++ spec_each bfn top hidden syms rel rest.
+Proof. reflexivity. Qed.
+
+(* visible: not hidden by its own name (directories on the way are not hidden by hypothesis) *)
+Definition vis (hidden : bool) (f : list str) : bool := hidden || negb (name_hidden (last f [])).
+
+Lemma spec_files_ents bfn hidden syms n : forall top tp rel,
+  tree_forall wf_Q wf_P false n = true ->
+  (hidden = true \/ tree_forall (fun _ => true) hid_P tp n = true) ->
+  is_dir n = true ->
+  forall f, In f (spec_files_in bfn top hidden syms rel n) <-> In (f, false) (ents bfn top rel n) /\ vis hidden f = true.
+Proof.
+  induction n as [| |kids IH] using node_ind2; intros top tp rel Hwf Hhid Hdir; try discriminate. clear Hdir.
+  rewrite spec_files_dir, ents_dir. unfold ents_kids.
+  apply tree_forall_dir in Hwf as [_ Hkids].
+  assert (Hh : forall nm k, In (nm, k) kids ->
+            hidden = true \/ (hid_P tp nm k = true /\ tree_forall (fun _ => true) hid_P false k = true)).
+  { intros nm k Hin. destruct Hhid as [->|Hhid]; [now left|right]. apply tree_forall_dir in Hhid as [_ HT]. exact (HT nm k Hin). }
+  clear Hhid. rewrite Forall_forall in IH.
+  induction kids as [|[nm k] r IHr]; intros f.
+  - cbn. split; [intros []|intros [[] _]].
+  - rewrite spec_each_cons, in_app_iff. cbn [flat_map fst snd]. rewrite in_app_iff.
+    assert (IHr' := IHr (fun e He => IH e (or_intror He)) (fun nm0 k0 H0 => Hkids nm0 k0 (or_intror H0))
+                        (fun nm0 k0 H0 => Hh nm0 k0 (or_intror H0)) f).
+    rewrite IHr'. clear IHr IHr'.
+    destruct (Hkids nm k (or_introl eq_refl)) as [HP Hk]. unfold wf_P in HP. apply andb_prop in HP as [_ Hsym].
+    apply negb_true_iff in Hsym. specialize (Hh nm k (or_introl eq_refl)). specialize (IH (nm, k) (or_introl eq_refl)).
+    cbn [snd] in IH. fold plz_out.
+    assert (Hvis : vis hidden (rel ++ [nm]) = hidden || negb (name_hidden nm)) by (unfold vis; now rewrite last_snoc).
+    enough (Hhead :
+      In f (if negb hidden && name_hidden nm then []
+            else if top && str_eqb nm plz_out then []
+            else match k with
+                 | Dir kk => if has_build bfn kk then [] else spec_files_in bfn false hidden syms (rel ++ [nm]) k
+                 | _ => spec_files_in bfn false hidden syms (rel ++ [nm]) k
+                 end)
+      <-> In (f, false) (if top && str_eqb nm plz_out then []
+                         else if keep bfn k then (rel ++ [nm], is_dir k) :: ents bfn false (rel ++ [nm]) k else [])
+          /\ vis hidden f = true) by tauto.
+    destruct (negb hidden && name_hidden nm) eqn:Eskip.
+    + apply andb_prop in Eskip as [Eh Enh]. apply negb_true_iff in Eh. subst hidden.
+      destruct Hh as [Hh|[Hh _]]; [discriminate|]. unfold hid_P in Hh. rewrite Enh, andb_true_r in Hh.
+      apply negb_true_iff in Hh. destruct k; try discriminate. cbn [keep ents is_dir].
+      split; [intros []|]. intros [Hin Hv]. destruct (top && str_eqb nm plz_out); [destruct Hin|].
+      destruct Hin as [E|[]]. injection E as <-. rewrite Hvis, Enh in Hv. discriminate.
+    + destruct (top && str_eqb nm plz_out); [split; [intros []|intros [[] _]]|].
+      assert (Hv : hidden || negb (name_hidden nm) = true).
+      { destruct hidden; [reflexivity|]. cbn in Eskip. now rewrite Eskip. }
+      destruct k as [| |kk]; [|discriminate|].
+      * cbn [spec_files_in keep ents is_dir]. split.
+        -- intros [<-|[]]. split; [now left|now rewrite Hvis].
+        -- intros [[E|[]] _]. injection E as <-. now left.
+      * cbn [keep]. destruct (has_build bfn kk); cbn [negb]; [split; [intros []|intros [[] _]]|].
+        rewrite (IH false false (rel ++ [nm])); [|exact Hk| |reflexivity].
+        -- cbn [is_dir]. split; [intros [Hin Hvf]; split; [now right|exact Hvf]|].
+           intros [[E|Hin] Hvf]; [discriminate|]. split; assumption.
+        -- destruct Hh as [->|[_ Hh]]; [now left|now right].
+Qed.
+
+(* every recorded path and every sub-package consists of entry names of the tree *)
+Definition all_ok (l : list (list str)) : Prop := forall f, In f l -> forallb entry_name_ok f = true.
+
+Lemma all_ok_cons x l : forallb entry_name_ok x = true -> all_ok l -> all_ok (x :: l).
+Proof. intros Hx Hl f [<-|Hf]; [exact Hx|now apply Hl]. Qed.
+
+Lemma sloop_names bfn rp dir ks :
+  (forall nm k, In (nm, k) ks -> forall a, all_ok (fst a) -> all_ok (snd a) ->
+      all_ok (fst (fst (swalk bfn rp dir nm k a))) /\ all_ok (snd (fst (swalk bfn rp dir nm k a)))) ->
+  forall a, all_ok (fst a) -> all_ok (snd a) ->
+    all_ok (fst (sloop bfn rp dir ks a)) /\ all_ok (snd (sloop bfn rp dir ks a)).
+Proof.
+  induction ks as [|[nm k] r IH]; intros Hk a HF HS; [split; assumption|].
+  unfold sloop. rewrite loop_until_cons. cbn [fst snd].
+  destruct (Hk nm k (or_introl eq_refl) a HF HS) as [HF2 HS2].
+  destruct (swalk bfn rp dir nm k a) as [a2 [|]]; cbn [fst] in HF2, HS2; [split; assumption|].
+  apply IH; [|exact HF2|exact HS2]. intros nm0 k0 Hin. apply Hk. now right.
+Qed.
+
+Lemma swalk_names bfn rp n : forall par nm a,
+  forallb entry_name_ok par = true -> entry_name_ok nm = true -> tree_forall wf_Q wf_P false n = true ->
+  all_ok (fst a) -> all_ok (snd a) ->
+  all_ok (fst (fst (swalk bfn rp par nm n a))) /\ all_ok (snd (fst (swalk bfn rp par nm n a))).
+Proof.
+  induction n as [| |kids IH] using node_ind2; intros par nm a Hpar Hnm Hwf HF HS;
+    (assert (Hx : forallb entry_name_ok (par ++ [nm]) = true) by now rewrite forallb_snoc, Hpar, Hnm);
+    cbn [swalk]; (destruct (in_bfn bfn nm && negb (is_nil par)); [split; [exact HF|now apply all_ok_cons]|]);
+    (destruct (str_eqb nm plz_out && rp); [split; assumption|]).
+  1,2: split; [now apply all_ok_cons|exact HS].
+  cbn [fst]. apply tree_forall_dir in Hwf as [_ Hkids]. rewrite Forall_forall in IH.
+  apply (sloop_names bfn rp (par ++ [nm]) kids); [|now apply all_ok_cons|exact HS].
+  intros nm2 k Hin a2 HF2 HS2. destruct (Hkids nm2 k Hin) as [HP Hk]. unfold wf_P in HP. apply andb_prop in HP as [Hn2 _].
+  exact (IH (nm2, k) Hin (par ++ [nm]) nm2 a2 Hx Hn2 Hk HF2 HS2).
+Qed.
+
+Lemma walk_names bfn rp kids : tree_forall wf_Q wf_P true (Dir kids) = true ->
+  all_ok (fst (sloop bfn rp [] kids ([[]], []))) /\ all_ok (snd (sloop bfn rp [] kids ([[]], []))).
+Proof.
+  intros Hwf. apply tree_forall_dir in Hwf as [_ Hkids].
+  apply sloop_names; [|intros f [<-|[]]; reflexivity|intros f []].
+  intros nm k Hin a HF HS. destruct (Hkids nm k Hin) as [HP Hk]. unfold wf_P in HP. apply andb_prop in HP as [Hn _].
+  now apply swalk_names.
 Qed.
